@@ -686,8 +686,10 @@ inline void genAll(Rng& r, int hq) {
 // next: generic, nearpar, coincident-{parallel,antiparallel,meridian,equator}, meridian-equator, pole, perpendicular;
 // segment: generic, crossing, near-miss, touching, short-far, coincident-{equator,meridian,oblique}, nearpar, polar;
 // ellipsoids (ix:ell-*): WGS84, International, f = 1/150, 0 (two radii), +-0.015 (series), WGS84 / +-1/50 / +-1/10 exact.
-inline void generate(Rng& r, bool thorough) {
-  long n = thorough ? 30000 : 16000;
+inline void generate(Rng& r, bool thorough, int K = 1) {
+  auto Q = [&](long v) { return std::max<long>(1, v / K); };   // K slices: the orchestrating generate() runs the parts round-robin
+
+  long n = Q(thorough ? 30000 : 16000);
   int hgrid = thorough ? 250000 : 500000;
   for (long i = 0; i < n; ++i) {
     // the brute-force scan on every case of the thorough tier and on a fraction of the quick tier
